@@ -340,7 +340,7 @@ func window(w *vt.Writer, rng *rand.Rand, n int) int {
 			case 2:
 				return m + time.Duration(rng.Intn(2001)-1000)*time.Millisecond
 			}
-			return time.Duration(rng.Int63n(int64(3 * D)))
+			return time.Duration(rng.Int63n(int64(3*D/time.Microsecond))) * time.Microsecond
 		}
 		for j := 0; j < 60; j++ {
 			now := D + pick() // never before epoch 1 so that a previous epoch exists
